@@ -131,6 +131,11 @@ def gen_cases(rng, tier, scale):
              ('{{eq (m_ret_i n) -4}}', 'true'), ('{{len (m_ret_i i)}}', '0')]
     for i, (t, exp) in enumerate(fixed):
         cases.append(rcase(f'x{i}', t, DATA, pre=['macros', 'esc 1'], entry=4, kind='fixed', exp=exp, tags=['fixed']))
+    # **kwargs holds EVERY hash argument, also one bound to a path that resolves to nothing (as null), in both modes
+    for st in (0, 1):
+        for i, (t, exp) in enumerate([('{{mkw a=1 b=zz c=o.zz}}', 'kw:x61=u1,x62=n,x63=n'), ('{{mkw b=zz}}', 'kw:x62=n'), ('{{mkw z=z a=b}}', 'kw:x61=t,x7a=n'),
+                                      ('{{id (mkw q=zz.y r=5)}}', 'kw:x71=n,x72=u5')]):
+            cases.append(rcase(f'kw{st}_{i}', t, DATA, pre=['macros', 'probes', 'esc 1', f'strict {st}'], entry=4, kind='fixed', exp=exp, tags=['kwargs-missing']))
     # the written result of a macro helper passes through the registered escape function exactly once whatever its
     # JSON type (marking escape fn: \x01 .. \x02), and not at all under {{{ }}}
     for i, (t, exp) in enumerate([('{{m_ret_i i}}', '\x015\x02'), ('{{m_ret_b s}}', '\x01true\x02'), ('{{m_ret_b i}}', '\x01false\x02'),
